@@ -532,9 +532,17 @@ def run_verus(scr, unit, seed=0):
     # map error line -> enclosing fn (nearest preceding `fn name` at line start-ish)
     def enclosing(line):
         for i in range(min(line, len(lines)) - 1, -1, -1):
-            m = re.match(r"\s*(?:pub(?:\([a-z]+\))?\s+)?(?:open\s+|closed\s+)?(?:broadcast\s+)?(?:proof\s+|exec\s+|spec\s+)?(?:axiom\s+)?fn\s+(\w+)", lines[i])
+            m = re.match(r"(\s*)(?:#\[[^\]]*\]\s*)*(?:pub(?:\([a-z]+\))?\s+)?(?:open\s+|closed\s+)?(?:broadcast\s+)?(?:proof\s+|exec\s+|spec\s+)?(?:axiom\s+)?fn\s+(\w+)", lines[i])
             if m:
-                return m.group(1)
+                name = m.group(2)
+                # method? look for an enclosing impl header (stop at the end of a previous top-level item)
+                for j in range(i - 1, -1, -1):
+                    mi = re.match(r"impl(?:<[^>]*>)?\s+(?:[\w:<>, ()&']+\s+for\s+)?(\w+)", lines[j])
+                    if mi:
+                        return mi.group(1) + "::" + name
+                    if lines[j].startswith("}"):
+                        break
+                return name
         return "?"
     for e in errs:
         e["fn"] = enclosing(e["line"]) if e["line"] else "?"
